@@ -61,6 +61,21 @@ func (r *vReq) ItemsCount() int { return r.items }
 // MergeSplit never mutates its inputs.  The gated schedules configure max_size = 0 (merge only); the stress
 // schedules use requests with one id per item (items == len(ids)) and split them into chunks of max_size.
 func (r *vReq) MergeSplit(_ context.Context, maxSize int, _ request.SizerType, r2 request.Request) ([]request.Request, error) {
+	if o, ok := r2.(*vReq); ok && vNoFill && maxSize > 0 && r.items+o.items > maxSize && r.items == len(r.ids) && o.items == len(o.ids) {
+		// a request type that does not top up the current batch: the first result is the current batch alone
+		// (it holds nothing of r2), r2 is cut into chunks of max_size on its own
+		res := []request.Request{&vReq{ids: append([]int(nil), r.ids...), items: r.items}}
+		rest := append([]int(nil), o.ids...)
+		for len(rest) > 0 {
+			n := maxSize
+			if n > len(rest) {
+				n = len(rest)
+			}
+			res = append(res, &vReq{ids: append([]int(nil), rest[:n]...), items: n})
+			rest = rest[n:]
+		}
+		return res, nil
+	}
 	m := &vReq{ids: append([]int(nil), r.ids...), items: r.items}
 	if r2 != nil {
 		o := r2.(*vReq)
@@ -81,6 +96,10 @@ func (r *vReq) MergeSplit(_ context.Context, maxSize int, _ request.SizerType, r
 	}
 	return res, nil
 }
+
+// vNoFill: the MergeSplit of the current schedule's requests does not top up the current batch (set per schedule;
+// schedules run one after the other)
+var vNoFill bool
 
 type vEnc struct{}
 
@@ -216,13 +235,14 @@ type vCfg struct {
 	batch      bool
 	timer      bool
 	legacy     bool // batcher configured through WithBatcher (deprecated) instead of sending_queue::batch
-	mode       int  // retry: 0 off, 1 long back-off, 2 short back-off, 3 gives up immediately
+	mode       int  // retry: 0 off, 1 long back-off, 2 short back-off, 3 gives up immediately, 4 zero back-off
 	consumers  int
 	min        int
 	wait       bool // wait_for_result (memory queue): Send returns, with the export's result, when Done is called
 	itemsSizer bool // the queue is sized by items instead of requests (always so with sending_queue::batch)
 	faultSize  bool // persistent: the queue-size snapshot cannot be written (persistentQueue.Shutdown returns an error when sized by items)
 	faultClose bool // persistent: client.Close returns an error
+	nofill     bool // split family: MergeSplit leaves the current batch alone when the merged size exceeds max_size
 	splitIDs   bool // split family: ids in the log are item ids 10r+j; the model's ids are the request ids r
 	signal     int  // 0 logs, 1 traces, 2 metrics (obs-report sender and queue telemetry differ per signal)
 	timeout    bool // timeout sender enabled (one hour; it only adds a deadline to the export context)
@@ -248,7 +268,7 @@ func (c vCfg) term() string {
 	// the snapshot is only written when the queue is not sized by requests (sending_queue::batch => items)
 	fsize := c.faultSize && c.persistent && c.itemsSizer
 	return vList([]string{b(c.persistent), b(c.batch), b(c.timer), vNat(c.mode), vNat(n), vNat(c.min), b(c.wait),
-		b(fsize), b(c.faultClose && c.persistent), vNat(c.max), b(!c.direct)})
+		b(fsize), b(c.faultClose && c.persistent), vNat(c.max), b(!c.direct), b(c.nofill)})
 }
 
 type vEvent struct {
@@ -274,6 +294,16 @@ type vRun struct {
 	returned bool
 	be       *BaseExporter
 	st       *vStorage
+	// census of the goroutines created by exporter-helper code, by creation site, at the last snapshot:
+	// [consumers (asyncQueue.Start), flush goroutines (defaultBatcher.flush), flush timer
+	// (defaultBatcher.startTimeBasedFlushingGoroutine), any other site]; and how many consumers / other goroutines
+	// are inside defaultBatcher.flush (waiting for a worker)
+	census         [4]int
+	otherSites     string
+	consInFlush    int
+	nonConsInFlush int
+	phaseCensus    map[int][4]int
+	unaccounted    string // first quiescent point with a goroutine from a creation site the model does not know
 	// wait_for_result: offers run in their own goroutines
 	ctx    context.Context
 	cancel context.CancelFunc
@@ -377,6 +407,7 @@ var vStackBuf = make([]byte, 4<<20)
 func (h *vRun) snapshot() (quiet bool, helpers int, busy string) {
 	n := runtime.Stack(vStackBuf, true)
 	quiet = true
+	h.census, h.otherSites, h.consInFlush, h.nonConsInFlush = [4]int{}, "", 0, 0
 	for _, blk := range strings.Split(string(vStackBuf[:n]), "\n\n") {
 		if !strings.HasPrefix(blk, "goroutine ") || !strings.Contains(blk, "exporterhelper/internal") {
 			continue
@@ -385,6 +416,37 @@ func (h *vRun) snapshot() (quiet bool, helpers int, busy string) {
 			continue
 		}
 		helpers++
+		// creation site ("created by <function> in goroutine N"); goroutines started by the harness itself
+		// (Shutdown caller, producers) and by the test runtime are not part of the census
+		if a := strings.Index(blk, "\ncreated by "); a >= 0 {
+			site := blk[a+len("\ncreated by "):]
+			if e := strings.IndexAny(site, " \n"); e >= 0 {
+				site = site[:e]
+			}
+			inFlush := strings.Contains(blk, "(*defaultBatcher).flush(")
+			switch {
+			case !strings.Contains(site, "exporterhelper/"), strings.Contains(site, "exporterhelper/internal.v"),
+				strings.Contains(site, "exporterhelper/internal.(*vRun)"), strings.Contains(site, "exporterhelper/internal.TestVerif"):
+			case strings.HasSuffix(site, ").Start") && strings.Contains(site, "asyncQueue"):
+				h.census[0]++
+				if inFlush {
+					h.consInFlush++
+				}
+			case strings.HasSuffix(site, "(*defaultBatcher).flush"):
+				h.census[1]++
+			case strings.HasSuffix(site, "(*defaultBatcher).startTimeBasedFlushingGoroutine"):
+				h.census[2]++
+				if inFlush {
+					h.nonConsInFlush++
+				}
+			default:
+				h.census[3]++
+				h.otherSites += site + " "
+				if inFlush {
+					h.nonConsInFlush++
+				}
+			}
+		}
 		hdr := blk
 		if e := strings.IndexByte(hdr, '\n'); e >= 0 {
 			hdr = hdr[:e]
@@ -424,6 +486,13 @@ func (h *vRun) quiesce() bool {
 	for spins := 0; ; spins++ {
 		if q, _, _ := h.snapshot(); q {
 			h.mu.Lock()
+			if h.phaseCensus == nil {
+				h.phaseCensus = map[int][4]int{}
+			}
+			h.phaseCensus[h.phase] = h.census
+			if h.census[3] > 0 && h.unaccounted == "" {
+				h.unaccounted = fmt.Sprintf("phase %d: %s", h.phase, h.otherSites)
+			}
 			h.phase++
 			h.mu.Unlock()
 			return true
@@ -440,6 +509,7 @@ func (h *vRun) quiesce() bool {
 }
 
 func vNewRun(cfg vCfg, st *vStorage, auto bool) (*vRun, error) {
+	vNoFill = cfg.nofill
 	h := &vRun{cfg: cfg, st: st, auto: auto}
 	h.ctx, h.cancel = context.WithCancel(context.Background())
 	st.mu.Lock()
@@ -495,6 +565,9 @@ func vNewRun(cfg vCfg, st *vStorage, auto bool) (*vRun, error) {
 			rcfg.InitialInterval = time.Hour
 			rcfg.MaxInterval = time.Hour
 			rcfg.MaxElapsedTime = time.Millisecond
+		case 4: // zero back-off: after stop the timer and the stop channel are ready together
+			rcfg.InitialInterval = 0
+			rcfg.MaxInterval = 0
 		}
 		opts = append(opts, WithRetry(rcfg))
 	}
@@ -576,6 +649,13 @@ func (h *vRun) phaseTerm(ph int) string {
 	it := make([]string, len(evs))
 	for i, e := range evs {
 		it[i] = vPair(vNat(e.kind), vIDs(e.ids))
+	}
+	// last event of the phase: the census of helper goroutines at the quiescent point that ended it
+	h.mu.Lock()
+	cs, okc := h.phaseCensus[ph]
+	h.mu.Unlock()
+	if okc {
+		it = append(it, vPair("9", vIDs(cs[:])))
 	}
 	return vList(it)
 }
@@ -756,14 +836,23 @@ func vOracle(h *vRun, cfg vCfg, st *vStorage, acceptedPre []int, stored []int, h
 
 // vRestart starts a fresh exporter over the same storage with an always-succeeding backend.
 func vRestart(out *vOut, cfg vCfg, st *vStorage, stored []int, fail func(kind, detail string)) {
+	// Further incarnations over the same storage, with the SAME queue capacity (a request that was in flight at shutdown
+	// may not fit back into a full queue on a restart: it must stay recoverable; with a small capacity only one such
+	// request may fit back per start), an always-succeeding backend, start -> drain -> Shutdown each.  Every incarnation
+	// that finds request bodies in the storage must make progress (export at least one of them), until nothing is
+	// left (at most 40 incarnations); everything that was stored after the first shutdown must have been exported.
 	cfg2 := cfg
 	cfg2.mode = 0
 	cfg2.faultSize, cfg2.faultClose = false, false
-	cfg2.capacity = 0 // not C01's finding F2: a full queue at restart refuses the re-enqueue of dispatched items
-	h2, err := vNewRun(cfg2, st, true)
-	if err != nil {
-		fail("harness-setup", "restart: "+err.Error())
-	} else {
+	got := map[int]bool{}
+	history := ""
+	for inc := 0; inc < 40; inc++ {
+		before := st.storedIDs()
+		h2, err := vNewRun(cfg2, st, true)
+		if err != nil {
+			fail("harness-setup", "restart: "+err.Error())
+			return
+		}
 		h2.quiesce()
 		go func() { _ = h2.be.Shutdown(context.Background()); h2.log(2, nil, 0) }()
 		deadline := time.Now().Add(20 * time.Second)
@@ -776,23 +865,281 @@ func vRestart(out *vOut, cfg vCfg, st *vStorage, stored []int, fail func(kind, d
 			}
 			time.Sleep(200 * time.Microsecond)
 		}
-		got := map[int]bool{}
+		h2.quiesce()
+		exported := 0
 		h2.mu.Lock()
 		for _, e := range h2.events {
 			if e.kind == 0 {
 				for _, i := range e.ids {
 					got[i] = true
+					exported++
 				}
 			}
 		}
 		h2.mu.Unlock()
-		for _, i := range stored {
-			if !got[i] {
-				fail("not-redelivered", fmt.Sprintf("id %d was stored after shutdown but the next instance did not export it", i))
+		out.Stat("restarts", 1)
+		after := st.storedIDs()
+		history += fmt.Sprintf(" #%d: stored %v -> exported %d items -> stored %v;", inc+1, before, exported, after)
+		if len(after) == 0 {
+			break
+		}
+		out.Stat("restarts_with_requests_still_stored", 1)
+		if inc == 2 { // still stored after the third restart: a fourth one is needed
+			out.Stat("restart_chains_longer_than_3", 1)
+		}
+		if exported == 0 && fmt.Sprint(before) == fmt.Sprint(after) {
+			fail("not-redelivered", fmt.Sprintf("a restart with a succeeding backend exported nothing although request bodies %v are stored:%s", after, history))
+			return
+		}
+	}
+	for _, i := range stored {
+		if !got[i] {
+			fail("not-redelivered", fmt.Sprintf("id %d was stored after shutdown but no later instance exported it:%s", i, history))
+		}
+	}
+	if left := st.storedIDs(); len(left) > 0 {
+		fail("not-redelivered", fmt.Sprintf("request bodies %v are still in the storage after 40 restarts with a succeeding backend:%s", left, history))
+	}
+}
+
+// vHangReport: everything needed to diagnose a Shutdown that does not return — the FULL goroutine dump (written to a file
+// next to the harness output, because it does not fit a detail line) and the queue's / condition variable's counters read by
+// reflection (without the lock: this is a post-mortem).  Returns a one-line summary: per goroutine its wait state and the
+// innermost exporter-helper frame, the counters, and the path of the dump file.
+var vHangSeq int
+
+func vHangReport(be *BaseExporter, tag string) string {
+	buf := make([]byte, 16<<20)
+	n := runtime.Stack(buf, true)
+	dump := string(buf[:n])
+	vHangSeq++
+	dir := "/verif/work/C03"
+	if o := os.Getenv("VERIF_OUT"); o != "" {
+		if k := strings.LastIndexByte(o, '/'); k > 0 {
+			dir = o[:k]
+		}
+	}
+	path := fmt.Sprintf("%s/hang_%s_%d_%d.txt", dir, tag, os.Getpid(), vHangSeq)
+	counters := vQueueCounters(be)
+	_ = os.WriteFile(path, []byte("counters: "+counters+"\n\n"+dump), 0o644)
+	var sum []string
+	for _, blk := range strings.Split(dump, "\n\n") {
+		if !strings.HasPrefix(blk, "goroutine ") || !strings.Contains(blk, "exporterhelper/") {
+			continue
+		}
+		lines := strings.Split(blk, "\n")
+		hdr := lines[0]
+		frame := ""
+		for _, l := range lines[1:] {
+			if strings.Contains(l, "exporterhelper/") && !strings.HasPrefix(l, "\t") && !strings.HasPrefix(l, "created by") {
+				frame = l
+				if k := strings.LastIndexByte(frame, '/'); k >= 0 {
+					frame = frame[k+1:]
+				}
+				if k := strings.IndexByte(frame, '('); k > 0 && !strings.HasPrefix(frame, "(") {
+					// keep "pkg.(*T).method"
+				}
+				break
 			}
 		}
-		out.Stat("restarts", 1)
+		sum = append(sum, hdr+" "+frame)
 	}
+	return fmt.Sprintf("goroutines: %s || counters: %s || full dump: %s", strings.Join(sum, " ; "), counters, path)
+}
+
+func vQueueCounters(be *BaseExporter) (res string) {
+	defer func() {
+		if r := recover(); r != nil {
+			res += fmt.Sprintf(" (reflection stopped: %v)", r)
+		}
+	}()
+	peek := func(v reflect.Value) reflect.Value {
+		return reflect.NewAt(v.Type(), unsafe.Pointer(v.UnsafeAddr())).Elem()
+	}
+	deref := func(v reflect.Value) reflect.Value {
+		for v.Kind() == reflect.Interface || v.Kind() == reflect.Ptr {
+			v = v.Elem()
+		}
+		return v
+	}
+	if be.QueueSender == nil {
+		return "no queue sender"
+	}
+	qb := deref(reflect.ValueOf(be.QueueSender))
+	q := deref(peek(qb.FieldByName("queue"))) // obsQueue
+	q = deref(peek(q.FieldByName("Queue")))   // asyncQueue
+	res += fmt.Sprintf("asyncQueue.numConsumers=%v ", peek(q.FieldByName("numConsumers")))
+	rq := deref(peek(q.FieldByName("readableQueue"))) // memoryQueue / persistentQueue
+	res += "queue=" + rq.Type().String() + " "
+	for _, f := range []string{"stopped", "size", "queueSize", "refClient", "readIndex", "writeIndex", "currentlyDispatchedItems", "blockOnOverflow"} {
+		if fv := rq.FieldByName(f); fv.IsValid() {
+			res += fmt.Sprintf("%s=%v ", f, peek(fv))
+		}
+	}
+	if c := rq.FieldByName("hasMoreSpace"); c.IsValid() {
+		cv := deref(peek(c))
+		res += fmt.Sprintf("hasMoreSpace{waiting=%v signals=%v len(ch)=%d} ", peek(cv.FieldByName("waiting")), peek(cv.FieldByName("signals")), peek(cv.FieldByName("ch")).Len())
+	}
+	return res
+}
+
+// vRestartMany: SEVERAL requests are interrupted by one Shutdown (a batch of four 2-item requests in its back-off) and
+// the queue (sized by items, capacity 3) takes back only one of them per start: the restart chain needs four or more
+// incarnations, each of which must make progress.  (The first version of the chain stopped after three restarts and
+// reported the rest as lost: a false alarm of the harness, seen once in the thorough tier.)
+func vRestartMany(out *vOut, rng *vRand, nr int) (failed, abort bool) {
+	cfg := vCfg{persistent: true, batch: true, itemsSizer: true, min: 8, mode: 1, consumers: 1, capacity: 3, signal: rng.Intn(3)}
+	st := &vStorage{m: map[string][]byte{}}
+	h, err := vNewRun(cfg, st, false)
+	if err != nil {
+		out.Oracle("harness-setup", "([8], [], ([], 0))", err.Error())
+		return true, false
+	}
+	fail := func(kind, detail string) {
+		failed = true
+		out.Oracle(kind, "([8], [], ([], 0))", fmt.Sprintf("%s  [restart chain with four interrupted requests #%d, capacity 3 items]", detail, nr))
+		vFlush(out)
+	}
+	var accepted []int
+	for id := 1; id <= 4; id++ {
+		ids := []int{10*id + 1, 10*id + 2}
+		if h.offer(ids, 2) {
+			accepted = append(accepted, ids...)
+		}
+		if !h.quiesce() {
+			fail("shutdown-hangs", "no quiescence after an offer")
+			return true, true
+		}
+	}
+	h.mu.Lock()
+	infl := append([]*vCall(nil), h.inflight...)
+	h.mu.Unlock()
+	if len(accepted) != 8 || len(infl) != 1 {
+		out.Stat("restart_many_setup_not_reached", 1)
+		h.releaseAll()
+		_ = h.be.Shutdown(context.Background())
+		return false, false
+	}
+	infl[0].gate <- 1 // the batch of all four requests fails transiently and waits in its back-off
+	h.quiesce()
+	h.log(7, nil, 0)
+	go func() { _ = h.be.Shutdown(context.Background()); h.log(2, nil, 0) }()
+	returned := false
+	for deadline := time.Now().Add(20 * time.Second); !returned && time.Now().Before(deadline); {
+		h.mu.Lock()
+		returned = h.returned
+		h.mu.Unlock()
+		if !returned {
+			time.Sleep(200 * time.Microsecond)
+		}
+	}
+	if !returned {
+		fail("shutdown-hangs", "Shutdown did not return within 20 s although nothing is in flight: "+vHangReport(h.be, "restartmany"))
+		h.releaseAll()
+		return true, true
+	}
+	h.quiesce()
+	_, helpers, _ := h.snapshot()
+	stored := st.storedIDs()
+	vOracle(h, cfg, st, accepted, stored, helpers, fail)
+	h.releaseAll()
+	if len(stored) == 8 {
+		out.Stat("restart_many_four_requests_interrupted", 1)
+	}
+	if !failed {
+		vRestart(out, cfg, st, stored, fail)
+	}
+	out.Stat("restart_many_rounds", 1)
+	return failed, helpers != 0
+}
+
+// vRestartFull: a request is in its back-off (dispatched) when Shutdown is called and the persistent queue has been
+// refilled to its capacity behind it (possible because the queue's size is reset when the read index catches up with
+// the write index).  On the next start the request does not fit back into the full queue; that instance dequeues and
+// exports the queued requests; the request must still be recovered by the start after that.  Oracle-only (restart
+// and recovery are not part of the LTS; see NOTES.md: the recovery itself is C01's clause).
+func vRestartFull(out *vOut, rng *vRand, nr int) (failed, abort bool) {
+	if nr%2 == 1 {
+		return vRestartMany(out, rng, nr)
+	}
+	capacity := 1 + rng.Intn(3)
+	cfg := vCfg{persistent: true, mode: 1, consumers: 1, capacity: capacity, signal: rng.Intn(3)}
+	st := &vStorage{m: map[string][]byte{}}
+	h, err := vNewRun(cfg, st, false)
+	if err != nil {
+		out.Oracle("harness-setup", "([8], [], ([], 0))", err.Error())
+		return true, false
+	}
+	fail := func(kind, detail string) {
+		failed = true
+		out.Oracle(kind, "([8], [], ([], 0))", fmt.Sprintf("%s  [restart with a full queue #%d, capacity %d requests, 1 consumer, long back-off]", detail, nr, capacity))
+		vFlush(out)
+	}
+	wait := func(what string) bool {
+		if !h.quiesce() {
+			fail("shutdown-hangs", "no quiescence within 20 s after "+what)
+			abort = true
+			return false
+		}
+		return true
+	}
+	if !h.offer([]int{1}, 1) || !wait("offer 1") {
+		return true, abort
+	}
+	h.mu.Lock()
+	infl := append([]*vCall(nil), h.inflight...)
+	h.mu.Unlock()
+	if len(infl) != 1 {
+		fail("harness-setup", "request 1 is not being exported")
+		h.releaseAll()
+		return true, false
+	}
+	infl[0].gate <- 1 // transient: request 1 now waits in its back-off, still dispatched
+	if !wait("release 1 transient") {
+		return true, true
+	}
+	accepted := []int{1}
+	for id := 2; id <= capacity+1; id++ {
+		if h.offer([]int{id}, 1) {
+			accepted = append(accepted, id)
+		}
+		if !wait("offer") {
+			return true, true
+		}
+	}
+	if len(accepted) == capacity+1 {
+		out.Stat("restart_full_queue_refilled_to_capacity", 1)
+	}
+	h.log(7, nil, 0)
+	go func() { _ = h.be.Shutdown(context.Background()); h.log(2, nil, 0) }()
+	// nothing is gated here: Shutdown must return by itself; poll for the return (not for quiescence: the woken
+	// consumer and the Shutdown caller hand over to each other through several wake-ups)
+	returned := false
+	for deadline := time.Now().Add(20 * time.Second); !returned && time.Now().Before(deadline); {
+		h.mu.Lock()
+		returned = h.returned
+		h.mu.Unlock()
+		if !returned {
+			time.Sleep(200 * time.Microsecond)
+		}
+	}
+	if !returned {
+		fail("shutdown-hangs", "Shutdown did not return within 20 s although nothing is in flight: "+vHangReport(h.be, "restartfull"))
+		h.releaseAll()
+		return true, true
+	}
+	if !wait("Shutdown") {
+		return true, true
+	}
+	_, helpers, _ := h.snapshot()
+	stored := st.storedIDs()
+	vOracle(h, cfg, st, accepted, stored, helpers, fail)
+	h.releaseAll()
+	if !failed {
+		vRestart(out, cfg, st, stored, fail)
+	}
+	out.Stat("restart_full_rounds", 1)
+	return failed, helpers != 0
 }
 
 // vSchedule generates and runs one schedule; evaluates the direct oracle; returns the case term.
@@ -807,7 +1154,7 @@ func vSchedule(out *vOut, rng *vRand, nr int, split bool) vSched {
 		batch:      rng.Intn(100) < 50,
 		timer:      rng.Bool(),
 		legacy:     rng.Intn(100) < 30,
-		mode:       rng.Intn(4),
+		mode:       rng.Intn(5),
 		consumers:  1 + rng.Intn(4),
 		min:        1 + rng.Intn(6),
 	}
@@ -822,6 +1169,7 @@ func vSchedule(out *vOut, rng *vRand, nr int, split bool) vSched {
 		cfg.max = 1 + rng.Intn(3)
 		cfg.min = 1 + rng.Intn(cfg.max)
 		cfg.splitIDs = true
+		cfg.nofill = rng.Intn(100) < 35
 	}
 	cfg.itemsSizer = (cfg.batch && !cfg.legacy) || rng.Intn(100) < 40
 	cfg.signal, cfg.timeout = rng.Intn(3), rng.Intn(100) < 30
@@ -868,7 +1216,7 @@ func vSchedule(out *vOut, rng *vRand, nr int, split bool) vSched {
 		ph := h.phase
 		if !h.quiesce() {
 			_, _, busy := h.snapshot()
-			fail("shutdown-hangs", "no quiescence within 20 s after "+act+": "+busy)
+			fail("shutdown-hangs", "no quiescence within 20 s after "+act+": "+busy+" || "+vHangReport(h.be, "noquiescence"))
 			res.abort = true
 			return false
 		}
@@ -880,6 +1228,7 @@ func vSchedule(out *vOut, rng *vRand, nr int, split bool) vSched {
 	nextID := 1
 	shutdownCalled := false
 	var accepted []int // ids whose offer was enqueued
+	var timerPending []int
 	shutPhase := -1
 	var begunAtCall map[int]bool
 	backoff := map[int]bool{} // first id of works sitting in a long back-off
@@ -924,7 +1273,7 @@ func vSchedule(out *vOut, rng *vRand, nr int, split bool) vSched {
 			wRel *= 2
 			if wRel == 0 && wOffer == 0 {
 				_, _, busy := h.snapshot()
-				fail("shutdown-hangs", "Shutdown called, every export call answered, nothing in flight, no return: "+busy)
+				fail("shutdown-hangs", "Shutdown called, every export call answered, nothing in flight, no return: "+busy+" || "+vHangReport(h.be, "gated"))
 				res.abort = true
 				ok = false
 				break
@@ -934,13 +1283,28 @@ func vSchedule(out *vOut, rng *vRand, nr int, split bool) vSched {
 		// free (nothing in flight, no work parked in a long back-off) and requests sit in the current batch
 		// (accepted, never begun)
 		wTimer := 0
-		if cfg.batch && cfg.timer && !shutdownCalled && len(infl) == 0 && len(backoff) == 0 {
+		if len(timerPending) > 0 { // a batch taken by the timer is still waiting for the worker
+			bg := begunIDs()
+			for _, i := range timerPending {
+				if bg[i] {
+					timerPending = nil
+					break
+				}
+			}
+		}
+		// ... or, with the worker busy (exactly one call in flight) and the consumer not itself waiting for the worker:
+		// then the timer goroutine takes the batch and blocks in flush() until the call is released
+		if cfg.batch && cfg.timer && !shutdownCalled && len(backoff) == 0 && len(timerPending) == 0 &&
+			(len(infl) == 0 || (len(infl) == 1 && h.consInFlush == 0)) {
 			bg := begunIDs()
 			for _, i := range accepted {
 				if !bg[i] {
 					wTimer = 2
 				}
 			}
+		}
+		if len(timerPending) > 0 {
+			wOffer = 0
 		}
 		switch rng.Pick(wOffer, wRel, wShut, wTimer) {
 		case 0:
@@ -1013,18 +1377,34 @@ func vSchedule(out *vOut, rng *vRand, nr int, split bool) vSched {
 			h.mu.Lock()
 			before := len(h.events)
 			h.mu.Unlock()
+			busyWorker := len(infl) == 1
+			if busyWorker {
+				bg := begunIDs()
+				for _, i := range accepted {
+					if !bg[i] {
+						timerPending = append(timerPending, i)
+					}
+				}
+				out.Stat("timer_fired_with_busy_worker", 1)
+			}
 			tm.Reset(time.Nanosecond)
-			// the timer goroutine must flush the current batch: wait for that export to begin
+			// the timer goroutine must take the current batch: wait for that export to begin, or — worker busy — until a
+			// goroutine other than the consumer is inside flush() waiting for the worker
 			deadline := time.Now().Add(20 * time.Second)
 			for {
 				h.mu.Lock()
 				n := len(h.events)
 				h.mu.Unlock()
-				if n > before {
+				if !busyWorker && n > before {
 					break
 				}
+				if busyWorker {
+					if h.snapshot(); h.nonConsInFlush > 0 {
+						break
+					}
+				}
 				if time.Now().After(deadline) {
-					fail("lost-accepted-request", "the flush timer fired but the current batch was not exported within 20 s")
+					fail("lost-accepted-request", "the flush timer fired but the current batch was not taken/exported within 20 s")
 					res.abort = true
 					ok = false
 					break
@@ -1104,6 +1484,10 @@ func vSchedule(out *vOut, rng *vRand, nr int, split bool) vSched {
 	res.complete = ok
 
 	// ---- direct oracle on the ordered event log ----------------------------------------------------
+	if ok && h.unaccounted != "" {
+		fail("unaccounted-goroutine", "a goroutine created inside the exporter helper at a site that is neither a consumer, "+
+			"a flush goroutine nor the flush timer (is it in the WaitGroup Shutdown waits on?): "+h.unaccounted)
+	}
 	if ok {
 		vOracle(h, cfg, st, acceptedPre, stored, helpers, fail)
 		if helpers != 0 {
@@ -1123,6 +1507,9 @@ func vSchedule(out *vOut, rng *vRand, nr int, split bool) vSched {
 			out.Stat("split_cfg_persistent", 1)
 		}
 		out.Stat(fmt.Sprintf("split_cfg_max_%d", cfg.max), 1)
+		if cfg.nofill {
+			out.Stat("split_cfg_mergesplit_does_not_top_up", 1)
+		}
 		out.Stat(fmt.Sprintf("split_cfg_retry_mode_%d", cfg.mode), 1)
 		if len(stored) > 0 {
 			out.Stat("split_schedules_with_items_left_in_storage", 1)
@@ -1370,8 +1757,13 @@ func vStress(out *vOut, rng *vRand, nr int) (failed, abort bool) {
 //
 //	begin-after-return        an export attempt began after Shutdown returned (or after the wrapped exporter's shutdown)
 //	work-after-return         every call answered, yet a Send is still inside the retry sender after Shutdown returned
-func vDirect(out *vOut, rng *vRand, nr int) (failed, abort bool) {
-	cfg := vCfg{direct: true, mode: rng.Pick(15, 45, 25, 15), consumers: 1, signal: rng.Intn(3), timeout: rng.Intn(100) < 30}
+func vDirect(out *vOut, rng *vRand, nr int, zero bool) (failed, abort bool) {
+	cfg := vCfg{direct: true, mode: rng.Pick(15, 35, 20, 10, 20), consumers: 1, signal: rng.Intn(3), timeout: rng.Intn(100) < 30}
+	if zero {
+		// regression stream of the zero-delay race (S4 / C03-m16): zero back-off, every Send inside the export call when
+		// Shutdown is called, every call then fails transiently: each is a coin flip if the stop channel is not re-checked
+		cfg.mode = 4
+	}
 	st := &vStorage{m: map[string][]byte{}}
 	h, err := vNewRun(cfg, st, false)
 	if err != nil {
@@ -1424,6 +1816,9 @@ func vDirect(out *vOut, rng *vRand, nr int) (failed, abort bool) {
 		}()
 	}
 	nSends := 1 + rng.Intn(4)
+	if zero {
+		nSends = 1 + rng.Intn(3)
+	}
 	nextID := 1
 	shutdownCalled := false
 	ok := true
@@ -1442,6 +1837,12 @@ func vDirect(out *vOut, rng *vRand, nr int) (failed, abort bool) {
 		if !shutdownCalled {
 			wShut = 1 + stepNo/2
 		}
+		if zero && !shutdownCalled {
+			wRel = 0
+			if wSend > 0 {
+				wShut = 0
+			}
+		}
 		if returned && wRel == 0 {
 			break
 		}
@@ -1457,6 +1858,12 @@ func vDirect(out *vOut, rng *vRand, nr int) (failed, abort bool) {
 			sort.Slice(infl, func(a, b int) bool { return infl[a].ids[0] < infl[b].ids[0] })
 			c := infl[rng.Intn(len(infl))]
 			o := rng.Pick(40, 45, 15)
+			if zero {
+				o = 1
+				if stepNo > 40 {
+					o = 0 // (only an edited retry sender gets here) let the geometric tail end
+				}
+			}
 			if o == 1 && cfg.mode == 1 && rng.Intn(3) == 0 {
 				c.gate <- 3 // throttled transient failure
 			} else {
@@ -1544,6 +1951,10 @@ func vDirect(out *vOut, rng *vRand, nr int) (failed, abort bool) {
 		out.Stat("direct_schedules_compared", 1)
 	}
 	out.Stat("direct_schedules", 1)
+	if zero {
+		out.Stat("zero_backoff_rounds", 1)
+		out.Stat("zero_backoff_coin_flips", nSends)
+	}
 	out.Stat(fmt.Sprintf("direct_retry_mode_%d", cfg.mode), 1)
 	return failed, false
 }
@@ -1664,9 +2075,33 @@ func TestVerifC03(t *testing.T) {
 	// exporters without queue and batcher
 	drng := vNewRand(3333)
 	for k, nd := 0, vBudget(150, 20); k < nd; k++ {
-		f, abort := vDirect(out, drng, k)
+		f, abort := vDirect(out, drng, k, false)
 		if f {
 			out.Stat("direct_failed", 1)
+		}
+		if abort {
+			out.Stat("run_aborted_after_deadline", 1)
+			return
+		}
+	}
+	// restart with a full queue, dequeue, restart again (oracle-only)
+	frng := vNewRand(55555)
+	for k, nf := 0, vBudget(24, 10); k < nf; k++ {
+		f, abort := vRestartFull(out, frng, k)
+		if f {
+			out.Stat("restart_full_failed", 1)
+		}
+		if abort {
+			out.Stat("run_aborted_after_deadline", 1)
+			return
+		}
+	}
+	// the zero-delay race after stop: 40 rounds (x 1-3 attempts in flight each), never reduced
+	zrng := vNewRand(44444)
+	for k, nz := 0, 40*vBudget(1, 5); k < nz; k++ {
+		f, abort := vDirect(out, zrng, k, true)
+		if f {
+			out.Stat("zero_backoff_failed", 1)
 		}
 		if abort {
 			out.Stat("run_aborted_after_deadline", 1)
@@ -1699,4 +2134,21 @@ func TestVerifC03(t *testing.T) {
 		}
 	}
 	out.Stat("stress_wall_ms", int(time.Since(t1).Milliseconds()))
+}
+
+// TestVerifC03HangHunt: many rounds of the restart-with-a-full-queue family only (VERIF_HUNT rounds); not part of ./check.
+func TestVerifC03HangHunt(t *testing.T) {
+	n := vEnvInt("VERIF_HUNT", 0)
+	if n == 0 {
+		t.Skip("VERIF_HUNT not set")
+	}
+	out := vOpen()
+	defer out.Close()
+	rng := vNewRand(uint64(vEnvInt("VERIF_HUNT_SALT", 1)))
+	for k := 0; k < n; k++ {
+		f, abort := vRestartFull(out, rng, 2*k) // even rounds: the full-queue flavour
+		if f || abort {
+			t.Fatalf("round %d failed (see %s)", k, os.Getenv("VERIF_OUT"))
+		}
+	}
 }
